@@ -141,6 +141,9 @@ ErrorReachable(defs, expr) ==
 ---------------------------------------------------------------------------
 (* CONTRACTS (C36) on observed outcomes                                    *)
 (*  outcome: "ok" | "err" | "timeout" | "panic" | "signal" | "exit"        *)
+(* A timeout is not judged for sentences and nesting (slowness is not       *)
+(* forbidden); for an alias case - a handful of tokens - it is a failure    *)
+(* to terminate (Trace_Grammar: AliasTerminates).                           *)
 NoCrash(outcome) == outcome \in {"ok", "err", "timeout"}
 (* a batch of plain sentences: the set of outcome labels seen *)
 BatchOK(outcomes) == DOMAIN outcomes \subseteq {"ok", "err"}
